@@ -24,7 +24,8 @@ CONSTANTS Mode, MaxLen,
 \*  "cfg": the configuration in force (the --loop bound): per test, from the layers below the function annotation)
 \*  "subst": what a path has learnt about a post-setUp symbol (symbol == constant), used to concretise it later on
 \*  "exec": the solver executor of the test's solving context has been shut down (1) - no query can be submitted any more
-Keys == {"s0", "t0", "bal", "code", "time", "s1", "alias", "cfg", "subst", "exec"}
+\*  "sha3": the hash expressions the registry of a path has given an id to (a hash registered anew gets its injectivity axioms)
+Keys == {"s0", "t0", "bal", "code", "time", "s1", "alias", "cfg", "subst", "exec", "sha3"}
 Setup == [k \in Keys |-> CASE k = "s0" -> 7 [] k = "s1" -> 1 [] k = "time" -> 1 [] k = "cfg" -> 2 [] OTHER -> 0]
 
 \* the concrete test functions of harness: checks/c20.py builds one bytecode body per entry
@@ -50,6 +51,10 @@ Tests == [
     \* symbol had been pinned to a constant - by ret_b itself never
     eq_a           |-> [writes |-> [subst |-> 1], expects |-> << >>],
     ret_b          |-> [writes |-> << >>,          expects |-> [subst |-> 1]],
+    \* hash_a computes keccak(5); hash_b asserts keccak(x) = keccak(5) => x = 5, provable only with the injectivity axioms
+    \* that come with the registration of both hashes on its own paths
+    hash_a         |-> [writes |-> [sha3 |-> 1],  expects |-> << >>],
+    hash_b         |-> [writes |-> [sha3 |-> 1],  expects |-> [sha3 |-> 0]],
     inv_a          |-> [writes |-> << >>,          expects |-> [s1 |-> 1]],
     inv_b          |-> [writes |-> << >>,          expects |-> [s1 |-> 1, s0 |-> 7]]
 ]
